@@ -63,6 +63,78 @@ example : run [⟨[], [0], []⟩, ⟨[], [0], [.field 0]⟩] 3 State.init [1, 0]
   decide
 example : tableClean [⟨[], [0], []⟩, ⟨[0], [], []⟩] = true := by decide
 
+
+/-! ### restored edits are identities on the array content -/
+
+theorem setMask_setMask_self {α : Type} (flag : α → Bool) (c inf : α) (x : List α)
+    (h : ∀ e ∈ x, flag e = true → e = inf) :
+    setMask (setMask x (x.map flag) c) (x.map flag) inf = x := by
+  induction x with
+  | nil => rfl
+  | cons a t ih =>
+    have iht := ih (fun e he => h e (List.mem_cons_of_mem _ he))
+    simp only [setMask, List.map_cons, List.zipWith_cons_cons] at iht ⊢
+    rw [iht]
+    cases hf : flag a
+    · simp
+    · simp [h a (List.mem_cons_self) hf]
+
+/-- **form 1** (`average_path_length`): if every flagged entry equals the constant written
+back (no `-inf` in the array when the flag is `np.isinf`), edit-then-restore leaves the shared
+array exactly as it was, whatever was written in between. -/
+theorem editRestoreMask_id {α : Type} (flag : α → Bool) (c inf : α) (x : List α)
+    (h : ∀ e ∈ x, flag e = true → e = inf) : editRestoreMask flag c inf x = x :=
+  setMask_setMask_self flag c inf x h
+
+/-- with the flag `· == np.inf` no hypothesis on the content is needed -/
+theorem editRestoreMask_eq_id {α : Type} [DecidableEq α] (c inf : α) (x : List α) :
+    editRestoreMask (fun e => decide (e = inf)) c inf x = x :=
+  editRestoreMask_id _ c inf x (by intro e _ he; simpa using he)
+
+/-- the hypothesis of `editRestoreMask_id` is needed: a flagged entry different from the
+restore constant (`-inf` under `np.isinf`) is not restored -/
+example : editRestoreMask (fun e : Int => e == 7 || e == -7) 0 7 [1, -7, 7] = [1, 7, 7] := by
+  decide
+
+theorem fillDiagFrom_fillDiagFrom {α : Type} (a z : α) (i : Nat) (x : List (List α))
+    (h : ∀ k (hk : k < x.length), i + k < (x[k]).length → (x[k])[i + k]? = some z) :
+    fillDiagFrom z i (fillDiagFrom a i x) = x := by
+  induction x generalizing i with
+  | nil => rfl
+  | cons r t ih =>
+    simp only [fillDiagFrom]
+    have ht := ih (i + 1) (by
+      intro k hk hlen
+      have := h (k + 1) (by simp; omega) (by simpa [Nat.add_assoc, Nat.add_comm 1 k] using hlen)
+      simpa [Nat.add_assoc, Nat.add_comm 1 k] using this)
+    rw [ht]
+    congr 1
+    by_cases hi : i < r.length
+    · have h0 := h 0 (by simp) (by simpa using hi)
+      simp only [List.getElem_cons_zero, Nat.add_zero] at h0
+      rw [List.set_set]
+      apply List.ext_getElem?
+      intro j
+      by_cases hj : j = i
+      · subst hj
+        have hz : z = r[j] := by
+          rw [List.getElem?_eq_getElem hi] at h0; exact (Option.some.inj h0).symm
+        simp [hi, hz]
+      · simp [Ne.symm hj]
+    · rw [List.set_set, List.set_eq_of_length_le (by omega)]
+
+/-- **form 2** (`global_efficiency`): on a matrix whose diagonal holds the constant written
+back (path-length matrices: zero diagonal), fill-then-restore is the identity. -/
+theorem editRestoreDiag_id {α : Type} (a z : α) (x : List (List α))
+    (h : ∀ k (hk : k < x.length), k < (x[k]).length → (x[k])[k]? = some z) :
+    editRestoreDiag a z x = x := by
+  unfold editRestoreDiag fillDiag
+  exact fillDiagFrom_fillDiagFrom a z 0 x (by simpa using h)
+
+/-- the diagonal hypothesis is needed -/
+example : editRestoreDiag (9 : Int) 0 [[5, 1], [1, 0]] = [[0, 1], [1, 0]] := by decide
+example : editRestoreDiag (9 : Int) 0 [[0, 1, 2], [1, 0, 3]] = [[0, 1, 2], [1, 0, 3]] := by decide
+
 end Pyunicorn.Pure
 
 namespace Pyunicorn.Generated.StructC06
@@ -72,5 +144,10 @@ open Pyunicorn.Pure
 field (outside constructors and documented mutators) or a caller argument is restored
 or documented -/
 theorem effects_clean : effectsClean effects = true := by decide +kernel
+
+/-- every edit the translator accepted as restored was recognised in one of the two forms that
+`editRestoreMask_id` / `editRestoreDiag_id` prove to be identities on the array content -/
+theorem restores_are_proved_forms :
+    restores.all (fun r => r.2 = .maskInf || r.2 = .diagInfZero) = true := by decide +kernel
 
 end Pyunicorn.Generated.StructC06
